@@ -378,3 +378,28 @@ Proof.
     cbn [andb]. apply (IH Hl). eapply items_wf_mono; [|exact Hr].
     intros x [<-|Hx]; [now left|exact Hx].
 Qed.
+
+(* non-duplicating forms for rewriting *)
+Lemma bag_n_oitemN_eq id o rest :
+  bag_n id (oitemN id o ++ rest) = match o with Some n => Some n | None => bag_n id rest end.
+Proof. rewrite bag_n_oitemN, N.eqb_refl. reflexivity. Qed.
+Lemma bag_n_oitemN_ne id id' o rest : (id' =? id) = false -> bag_n id (oitemN id' o ++ rest) = bag_n id rest.
+Proof. intros E. rewrite bag_n_oitemN, E. reflexivity. Qed.
+Lemma bag_b_oitemB_eq id o rest :
+  bag_b id (oitemB id o ++ rest) = match o with Some n => Some n | None => bag_b id rest end.
+Proof. rewrite bag_b_oitemB, N.eqb_refl. reflexivity. Qed.
+Lemma bag_b_oitemB_ne id id' o rest : (id' =? id) = false -> bag_b id (oitemB id' o ++ rest) = bag_b id rest.
+Proof. intros E. rewrite bag_b_oitemB, E. reflexivity. Qed.
+Lemma bag_ns_oitemN_eq id o rest :
+  bag_ns id (oitemN id o ++ rest) = match o with Some n => n :: bag_ns id rest | None => bag_ns id rest end.
+Proof. rewrite bag_ns_oitemN, N.eqb_refl. reflexivity. Qed.
+Lemma bag_ns_oitemN_ne id id' o rest : (id' =? id) = false -> bag_ns id (oitemN id' o ++ rest) = bag_ns id rest.
+Proof. intros E. rewrite bag_ns_oitemN, E. reflexivity. Qed.
+Lemma bag_n_sitems_ne id l rest : (P_SUB_ID =? id) = false -> bag_n id (sitems l ++ rest) = bag_n id rest.
+Proof. apply bag_n_sitems. Qed.
+
+#[export] Hint Rewrite bag_n_oitemN_eq bag_n_oitemB bag_n_uitems bag_n_nil
+  bag_b_oitemB_eq bag_b_oitemN bag_b_uitems bag_b_sitems bag_b_nil
+  bag_pairs_oitemN bag_pairs_oitemB bag_pairs_uitems bag_pairs_sitems bag_pairs_nil
+  bag_ns_oitemN_eq bag_ns_oitemB bag_ns_uitems bag_ns_sitems bag_ns_nil bag_bool_eq : bag.
+#[export] Hint Rewrite bag_n_oitemN_ne bag_b_oitemB_ne bag_ns_oitemN_ne bag_n_sitems_ne using reflexivity : bag.
